@@ -8,6 +8,7 @@ import (
 	"strings"
 
 	"storj.io/drpc"
+	"storj.io/drpc/drpcmetadata"
 
 	"verif/engine/sched"
 	"verif/engine/vs"
@@ -36,6 +37,13 @@ func handlerFor(specs []rpcSpec) wl.HandlerFunc {
 			return errors.New("unknown")
 		}
 		tag := tagOf(i)
+		if md, ok := drpcmetadata.Get(stream.Context()); ok {
+			if want := fmt.Sprintf("%c", tag); md["owner"] != want || len(md) != 1 {
+				env.Failf("CROSSTALK: handler of %s sees metadata %v attached to another RPC", rpc, md)
+			}
+		} else if specs[i].End == "cancel" {
+			env.Failf("handler of %s does not see the metadata its caller attached", rpc)
+		}
 		recv := func() error {
 			var in []byte
 			if err := stream.MsgRecv(&in, enc.Bytes{}); err != nil {
@@ -112,6 +120,8 @@ func runRPC(env *wl.Env, i int, sp rpcSpec) {
 	ctx, cancel := context.WithCancel(context.Background())
 	name := fmt.Sprintf("/r%d", i)
 	if sp.End == "cancel" {
+		// abandoned RPCs carry metadata: it must never surface in another RPC
+		ctx = drpcmetadata.AddPairs(ctx, map[string]string{"owner": fmt.Sprintf("%c", tagOf(i))})
 		vs.Go(fmt.Sprintf("canceller%d", i), func() { wl.Cancel(cancel) })
 	}
 	req := enc.Payload(tagOf(i), 0, 0, enc.MinPayload)
